@@ -4,9 +4,12 @@
 
   OBLIGATIONS (audited by `check` with `#print axioms`):
     trie_refines_spec, spec_some_iff, spec_none_iff, trie_sorted, min_level_spec, path_map_spec,
-    reregistration_last_wins, order_irrelevant, parseTail_spec, level_roundtrip, default_is_info
+    reregistration_last_wins, order_irrelevant, parseTail_spec, level_roundtrip, default_is_info,
+    bare_level_spec, min_generic_spec, min_level_is_generic, generic_path_map_spec, path_map_is_generic,
+    macro_level_table, level_macro_passes_min_iff, level_macro_passes_path_map_iff, level_span_enabled_iff
 -/
 import EmitModel.Lemmas.Level
+import EmitModel.Lemmas.Pipeline
 
 namespace EmitModel.C17
 open EmitModel.Level Std
@@ -220,5 +223,128 @@ theorem prefix_iff_is_child_of (ps ms : List (List Char)) (hp : ps ≠ []) (hm :
 
 example : isChildOf "aa::b".toList "a".toList = false := by decide
 example : isChildOf "a::b".toList "a".toList = true := by decide
+
+
+/-! ## `From<Level>`, user level types -/
+
+/-- A bare `Level` (`From<Level> for MinLevelFilter`) is the filter with that minimum and no unleveled default:
+    it accepts iff the event's level — or Info for an event without one — is at least the level. -/
+theorem bare_level_spec (l : Level) (props : List (String × LvlVal)) :
+    (MinF.ofLevel l).matches props = (effectiveLevel none props).ge l := rfl
+
+/-- `MinLevelFilter<L>` for ANY level type: accepted iff the level read by `L`'s own `FromValue` from the first
+    `lvl` property, else the configured default, else `L::default()`, is `>=` the minimum in `L`'s own order. -/
+theorem min_generic_spec {L : Type} (T : LevelType L) (f : MinG L) (props : List (String × LvlVal)) :
+    f.matches T props =
+      T.ge (match (lookupFirst "lvl" props).bind T.cast with
+        | some l => l
+        | none => f.dflt.getD T.default) f.min := by
+  unfold MinG.matches
+  cases (lookupFirst "lvl" props).bind T.cast <;> rfl
+
+/-- `emit::Level` is one instance of the generic filter. -/
+theorem min_level_is_generic (f : MinF) (props : List (String × LvlVal)) :
+    f.matches props = (⟨f.min, f.dflt⟩ : MinG Level).matches emitLevel props := rfl
+
+/-- **`MinLevelPathMap<L>` for any payload.** The generic trie walk selects the last registration of the
+    longest registered prefix of the module and accepts when there is none — for every registration list,
+    every module and every filter type; which level type the selected filter compares is irrelevant to the
+    selection. -/
+theorem generic_path_map_spec {β : Type} (accept : β → Bool) (regs : List (List String × β)) (mdl : String) :
+    pathMapMatchesG accept regs mdl =
+      match longest (lastReg regs) (segments mdl) with
+      | none => true
+      | some f => accept f := by
+  have key : Node.lookup compare (buildG regs) (segments mdl) = longest (lastReg regs) (segments mdl) := by
+    unfold Node.lookup longest
+    rw [Node.walk_eq, ← Node.get_nil compare (buildG regs)]
+    have e : ∀ q, Node.get compare (buildG regs) q = lastReg regs q := by
+      intro q
+      unfold buildG
+      rw [get_foldl_insert, Node.get_empty]; simp
+    rw [longestBelow_congr (segments mdl) e, e]
+  unfold pathMapMatchesG
+  rw [key]
+  cases longest (lastReg regs) (segments mdl) <;> rfl
+
+/-- The `emit::Level` map is the generic one. -/
+theorem path_map_is_generic (regs : List Reg) (mdl : String) (props : List (String × LvlVal)) :
+    pathMapMatches regs mdl props = pathMapMatchesG (fun f => f.matches props) (regPairs regs) mdl := by
+  unfold pathMapMatches pathMapMatchesG buildG
+  rw [build_eq]
+  cases Node.lookup compare (List.foldl (fun n r => Node.insert compare n r.fst r.snd) Node.empty (regPairs regs))
+    (segments mdl) <;> rfl
+
+/-- The user level type of the harness orders severities the other way round: a minimum of 3 accepts 0-3. -/
+example : (⟨3, none⟩ : MinG Nat).matches sevType [("lvl", .int 2)] = true ∧
+    (⟨3, none⟩ : MinG Nat).matches sevType [("lvl", .int 4)] = false ∧
+    (⟨3, none⟩ : MinG Nat).matches sevType [("lvl", .text "2")] = false ∧   -- unreadable → default 6
+    (⟨7, some 7⟩ : MinG Nat).matches sevType [] = true := by decide
+
+/-! ## The level macros against level filters -/
+
+open EmitModel.Pipeline
+
+/-- The level each macro family attaches (the whole table): `emit!`/`evt!`/`#[span]`/`new_span!` none,
+    the `debug`/`info`/`warn`/`error` forms their own. -/
+theorem macro_level_table :
+    [LevelMacro.plain, .debug, .info, .warn, .error].map LevelMacro.level =
+      [none, some .debug, some .info, some .warn, some .error] := by decide
+
+/-- **An event emitted by `emit::debug!/info!/warn!/error!` passes `min_filter(min)` iff the macro's level is at
+    least `min`** — whatever the other call-site properties (none of which can be `lvl`: the macro rejects a
+    duplicate key), the `props:` base, the ambient properties and the filter's unleveled default are. The
+    macro's level is found first because call-site properties precede base and ambient ones. -/
+theorem level_macro_passes_min_iff (m : LevelMacro) (l : Level) (hm : m.level = some l) (f : MinF)
+    (mdl tpl : String) (extent : Option Extent) (props base amb : List (String × Val))
+    (h : NoKey "lvl" props) :
+    minLevelLeaf f ⟨mdl, tpl, extent, macroProps m props ++ base ++ amb⟩ = l.ge f.min := by
+  simp only [minLevelLeaf, MinF.matches, macroProps, hm, lvl_lookupFirst, List.append_assoc,
+    lookupFirst_insertProp_append "lvl" (.lvl l) props (base ++ amb) h]
+  rfl
+
+/-- The same through a per-module map: the minimum registered for the longest registered prefix of the event's
+    module decides; an unregistered module passes. -/
+theorem level_macro_passes_path_map_iff (m : LevelMacro) (l : Level) (hm : m.level = some l) (regs : List Reg)
+    (mdl tpl : String) (extent : Option Extent) (props base amb : List (String × Val))
+    (h : NoKey "lvl" props) :
+    pathMapLeaf regs ⟨mdl, tpl, extent, macroProps m props ++ base ++ amb⟩ =
+      match specLookup regs (segments mdl) with
+      | none => true
+      | some f => l.ge f.min := by
+  unfold pathMapLeaf
+  rw [path_map_spec]
+  cases hs : specLookup regs (segments mdl) with
+  | none => rfl
+  | some f =>
+    have := level_macro_passes_min_iff m l hm f mdl tpl extent props base amb h
+    simpa [minLevelLeaf, min_level_spec] using this
+
+/-- **A span of level `l` is enabled by `min_filter(min)` iff `l >= min`** (and a plain `#[span]` iff the
+    filter's unleveled default, else Info, is) — provided nothing in front of the macro's level (the call-site
+    properties, the ids, the ambient context) already carries a `lvl`: the begin-span filter puts the macro's
+    level LAST, so an ambient `lvl` would be read instead. -/
+theorem level_span_enabled_iff (m : LevelMacro) (f : MinF) (mdl name : String)
+    (ctxtProps ids amb : List (String × Val)) (h : NoKey "lvl" (ctxtProps ++ ids ++ amb)) :
+    minLevelLeaf f (spanStartEvt m mdl name ctxtProps ids amb) =
+      ((m.level.or f.dflt).getD .info).ge f.min := by
+  have hk : NoKey "lvl" ([("evt_kind", Val.kind .span), ("span_name", .str name)] ++ ctxtProps ++ ids ++ amb) := by
+    intro p hp
+    simp only [List.append_assoc, List.mem_append, List.mem_cons, List.not_mem_nil, or_false] at hp
+    rcases hp with (rfl | rfl) | hp
+    · decide
+    · show "span_name" ≠ "lvl"; decide
+    · exact h p (by simpa [List.append_assoc] using hp)
+  simp only [minLevelLeaf, MinF.matches, spanStartEvt, lvl_lookupFirst,
+    lookupFirst_append_of_noKey "lvl" _ (lvlProp m) hk]
+  cases m <;> simp [lvlProp, LevelMacro.level, Pipeline.lookupFirst, Val.toLvlVal, LvlVal.cast]
+
+/-- … and the counterpart: an ambient `lvl` in front shadows the macro's level (the code as it is). -/
+example : minLevelLeaf ⟨.warn, none⟩ (spanStartEvt .error "m" "sp" [] [] [("lvl", .str "debug")]) = false := by decide
+example : minLevelLeaf ⟨.warn, none⟩ (spanStartEvt .error "m" "sp" [] [] []) = true := by decide
+example : NoKey "lvl" ([("n", Val.int 7)] ++ [("trace_id", .disp "2a")] ++ [("amb", .int 1)]) := by
+  intro p hp; simp at hp; rcases hp with rfl | rfl | rfl <;> decide
+example : minLevelLeaf ⟨.warn, some .error⟩ ⟨"m", "t", none, macroProps .info [("a", .int 1), ("z", .int 2)] ++ [] ++ []⟩ = false := by
+  decide
 
 end EmitModel.C17
